@@ -188,103 +188,9 @@ def _compare(real, exp, sent):
 
 
 def replay_graph(v, cfg='Mux_small.cfg', max_edges=None):
-    work = common.workdir()
-    dump = os.path.join(work, 'mux_graph')
-    r = tlc.run('Mux', cfg, workers=1, dump=dump, timeout=900, name='muxdump')
-    if not r.ok:
-        raise common.Machinery('TLC dump of Mux failed: ' + r.out[-2000:])
-    nodes, edges, inits = tlc.parse_dot(dump + '.dot')
-    st = {}
-
-    def S(n):
-        if n not in st:
-            st[n] = _state(nodes[n])
-        return st[n]
-
-    out = {}
-    for (a, b, lab) in edges:
-        if a == b:
-            continue
-        out.setdefault(a, []).append((b, lab))
-    # BFS tree for teleporting
-    parent = {inits[0]: None}
-    order = [inits[0]]
-    for a in order:
-        for (b, lab) in out.get(a, []):
-            if b not in parent:
-                parent[b] = (a, lab)
-                order.append(b)
-
-    def path_to(n):
-        p = []
-        while parent[n] is not None:
-            a, lab = parent[n]
-            p.append((a, n, lab))
-            n = a
-        return list(reversed(p))
-
-    def build(n):
-        real = RealMux()
-        for (a, b, lab) in path_to(n):
-            name, args = tlc.parse_action_label(lab)
-            _apply(real, name, args, S(a))
-        return real
-
-    done = set()
-    total = sum(len(x) for x in out.values())
-    replayed = teleports = 0
-    bad_states = set()
-    failures = 0
-    # DFS over unreplayed edges, continuing along the edge just taken whenever possible
-    stack_states = list(reversed(order))
-    cur, real = inits[0], RealMux()
-    while True:
-        nxt = None
-        for k, (b, lab) in enumerate(out.get(cur, [])):
-            if (cur, k) not in done:
-                nxt = (k, b, lab)
-                break
-        if nxt is None or cur in bad_states:
-            # teleport to a state that still has unreplayed edges
-            cur = None
-            while stack_states:
-                c = stack_states[-1]
-                if c not in bad_states and any((c, k) not in done for k in range(len(out.get(c, [])))):
-                    cur = c
-                    break
-                stack_states.pop()
-            if cur is None:
-                break
-            real = build(cur)
-            teleports += 1
-            continue
-        k, b, lab = nxt
-        done.add((cur, k))
-        name, args = tlc.parse_action_label(lab)
-        try:
-            sent = _apply(real, name, args, S(cur))
-            bad = _compare(real, S(b), sent)
-        except common.Machinery:
-            raise
-        except Exception as ex:     # the library raised where the specification defines a step
-            bad = ('C05.sender_step_raised', '%s: %s' % (type(ex).__name__, ex))
-        replayed += 1
-        if bad:
-            failures += 1
-            if failures <= 40:
-                v.add_failure(bad[0], {'action': name, 'model': 'Mux'}, 'state q=%s wire=%s --%s--> %s' % (S(cur)['q'], S(cur)['wire'], lab, bad[1]),
-                              {'kind': 'mux', 'cfg': cfg, 'path': [l for (_, _, l) in path_to(cur)] + [lab]})
-            bad_states.add(b)       # do not continue from a state the code did not reach
-            cur = b
-            continue
-        cur = b
-        if max_edges and replayed >= max_edges:
-            break
-    v.add('mux_transitions_replayed', replayed)
-    v.add('mux_transitions_total', total)
-    v.add('mux_states', len(nodes))
-    v.add('mux_teleports', teleports)
-    v.sample({'model': 'Mux', 'cfg': cfg, 'example_path': [l for (_, _, l) in path_to(order[len(order) // 2])]})
+    from . import graphreplay
+    graphreplay.replay(v, 'Mux', cfg, RealMux, _apply, _compare, _state, prop='C05', label='mux',
+                       describe=lambda s: 'q=%s wire=%s' % (s['q'], s['wire']), max_edges=max_edges)
 
 
 def model_check(v, thorough):
